@@ -75,6 +75,9 @@ func judgeScenario(r *core.Run, c *Case, out *sims.Outcome) {
 		r.Count("last-certificate-with-pointers", 1)
 	}
 	r.Count("valid-chain-results", 1)
+	if c.Sc.STOutside {
+		r.Count("signing-time-outside-validity", 1)
+	}
 	for _, x := range out.Results {
 		r.Count("verdict-"+x.Result.String(), 1)
 	}
@@ -123,6 +126,11 @@ func randomScenario(rng *rand.Rand, length int) sims.Scenario {
 	}
 	if length > 1 && rng.IntN(10) == 0 {
 		sc.Plans[1+rng.IntN(length-1)].Shape.NoCRLSign = true
+	}
+	if rng.IntN(6) == 0 {
+		// a signing time at which none of the certificates was valid: revocation
+		// checking is not where that is judged
+		sc.WithST, sc.STOutside = true, true
 	}
 	if rng.IntN(4) == 0 {
 		// the last certificate advertises a responder and a distribution point of
